@@ -319,7 +319,73 @@ def r6_restore_path(repo: Repo, rep):
         rep.undecided(R, "src/torchphysics", "package", "classes of the solver / condition modules", "none found")
 
 
+def r7_state_dict_stays_loadable(repo: Repo, rep):
+    R = rep.rule("R-C19-7", "what a checkpoint holds can be loaded into a freshly built model and is what training continues from: no persistent buffer is a cache "
+                 "re-assigned in forward, no hook re-writes parameter data after the restore, callbacks leave the train/eval mode as they found it", floor=20,
+                 why="a buffer whose shape follows the last batch breaks load_state_dict; a cast in configure_optimizers runs after the weights were restored; "
+                     "the mode flag is not part of a checkpoint")
+    # (a) persistent buffers vs attributes assigned outside the constructor
+    for ci in repo.all_classes():
+        if not ci.module.name.startswith("torchphysics.models") and ".conditions." not in ci.module.name:
+            continue
+        regs = {}
+        for fi in ci.methods.values():
+            for c in ast.walk(fi.node):
+                if isinstance(c, ast.Call) and isinstance(c.func, ast.Attribute) and c.func.attr == "register_buffer" and c.args and isinstance(c.args[0], ast.Constant):
+                    pers = kwarg(c, "persistent", 2)
+                    if not (isinstance(pers, ast.Constant) and pers.value is False):
+                        regs[c.args[0].value] = fi
+        bad = []
+        for fi in ci.methods.values():
+            if fi.name in ("__init__",):
+                continue
+            for n in ast.walk(fi.node):
+                if isinstance(n, (ast.Assign, ast.AugAssign)):
+                    for t in (n.targets if isinstance(n, ast.Assign) else [n.target]):
+                        if isinstance(t, ast.Attribute) and isinstance(t.value, ast.Name) and t.value.id == "self" and t.attr in regs:
+                            bad.append(f"{fi.name}: self.{t.attr} = {dump(n.value)[:40]}")
+        # subclasses assign the cache of the base class
+        for sub in repo.subclasses(ci, strict=True):
+            for fi in sub.methods.values():
+                if fi.name == "__init__":
+                    continue
+                for n in ast.walk(fi.node):
+                    if isinstance(n, ast.Assign):
+                        for t in n.targets:
+                            if isinstance(t, ast.Attribute) and isinstance(t.value, ast.Name) and t.value.id == "self" and t.attr in regs:
+                                bad.append(f"{sub.name}.{fi.name}: self.{t.attr} = {dump(n.value)[:40]}")
+        if regs or ci.methods.get("forward") is not None:
+            init = ci.methods.get("__init__") or next(iter(ci.methods.values()), None)
+            if init is not None:
+                rep.saw(init)
+                rep.check(R, not bad, init.site(), ci.fq, "persistent buffers are not re-assigned after construction", str(sorted(set(bad))[:2]), f"persistent buffer used as cache {sorted(set(bad))[:1]}")
+    # (b) Solver hooks do not write parameter data
+    S = repo.cls("solver.Solver")
+    for name, fi in S.methods.items():
+        if name == "__init__":
+            continue
+        writes = [dump(n)[:70] for n in ast.walk(fi.node) if isinstance(n, (ast.Assign, ast.AugAssign)) and any(
+            isinstance(t, ast.Attribute) and t.attr in ("data", "grad") for t in (n.targets if isinstance(n, ast.Assign) else [n.target]))]
+        writes += [dump(c)[:70] for c in ast.walk(fi.node) if isinstance(c, ast.Call) and isinstance(c.func, ast.Attribute) and c.func.attr in ("copy_", "fill_", "zero_", "half", "double", "float", "bfloat16", "type")
+                   and any(isinstance(x, ast.Attribute) and x.attr == "data" for x in ast.walk(c.func.value))]
+        writes += [dump(c)[:70] for c in ast.walk(fi.node) if isinstance(c, ast.Call) and isinstance(c.func, ast.Attribute) and c.func.attr in ("double", "half", "float", "bfloat16", "to")
+                   and dump(c.func.value) == "self" and c.func.attr != "to"]
+        rep.saw(fi)
+        rep.check(R, not writes, fi.site(), fi.fq, "no write to parameter data in a Solver hook", str(writes[:2]), f"parameter data re-written in {name}: {writes[:1]}")
+    # (c) callbacks restore the mode they change
+    m = repo.module("utils.callbacks")
+    for ci in m.classes.values():
+        for fi in ci.methods.values():
+            evals = [c for c in ast.walk(fi.node) if isinstance(c, ast.Call) and isinstance(c.func, ast.Attribute) and c.func.attr == "eval" and not c.args]
+            trains = [c for c in ast.walk(fi.node) if isinstance(c, ast.Call) and isinstance(c.func, ast.Attribute) and c.func.attr == "train"]
+            freeze = [c for c in ast.walk(fi.node) if isinstance(c, ast.Call) and isinstance(c.func, ast.Attribute) and c.func.attr in ("requires_grad_", "freeze")]
+            rep.saw(fi)
+            rep.check(R, (not evals or bool(trains)) and not freeze, fi.site(), fi.fq, "a callback that switches the model to eval mode switches it back",
+                      f"{len(evals)} eval() / {len(trains)} train() calls; {len(freeze)} freeze calls", f"mode changed in {fi.name}")
+
+
 def run(repo: Repo, rep):
+    r7_state_dict_stays_loadable(repo, rep)
     r6_restore_path(repo, rep)
     r5_state_layout(repo, rep)
     r1_registration(repo, rep)
